@@ -22,6 +22,16 @@ initialX, minX, maxX, tolerance, convergenceLimit float64, maxIterations int) (x
 	if math.Abs(maxDelta) < tolerance {
 		return maxX, maxDelta
 	}
+	if maxIterations <= 0 {
+		// no iterations allowed: the answer is the best of the three points evaluated so far
+		if math.Abs(minDelta) < math.Abs(delta) {
+			x, delta = minX, minDelta
+		}
+		if math.Abs(maxDelta) < math.Abs(delta) {
+			x, delta = maxX, maxDelta
+		}
+		return
+	}
 	for iteration := 0; iteration < maxIterations; iteration++ {
 		var trialXs []float64
 		var trialDeltas []float64
